@@ -170,3 +170,18 @@ Proof.
   assert (Hp : 0 < norm2 OpsR (cross OpsR p0x p1p0)) by lra.
   pose proof (green_log_argument_positive_lemma p0 p1 x Hp) as Hpos. fold p0x p1x p1p0 arg in Hpos. lra.
 Qed.
+
+(* the run-time-cheap constants of fisnormal (Base/Vec3.v) are the same reals as DBL_MIN = 2^-1022, DBL_MAX = (2^53-1) 2^971 *)
+Lemma fpow2_R p : fpow2 OpsR p = IZR (2 ^ Zpos p).
+Proof.
+  induction p as [p IH|p IH|]; cbn [fpow2 fmul fofZ OpsR].
+  - rewrite IH. replace (Z.pos p~1) with (Z.pos p + Z.pos p + 1)%Z by lia.
+    rewrite !Z.pow_add_r, Z.pow_1_r by lia. rewrite !mult_IZR. ring.
+  - rewrite IH. replace (Z.pos p~0) with (Z.pos p + Z.pos p)%Z by lia.
+    rewrite Z.pow_add_r by lia. rewrite mult_IZR. ring.
+  - reflexivity.
+Qed.
+Lemma dbl_min_fast_R : dbl_min_fast OpsR = dbl_min OpsR.
+Proof. unfold dbl_min_fast, dbl_min. rewrite fpow2_R. reflexivity. Qed.
+Lemma dbl_max_fast_R : dbl_max_fast OpsR = dbl_max OpsR.
+Proof. unfold dbl_max_fast, dbl_max. rewrite fpow2_R. cbn [fmul fofZ OpsR]. rewrite <- mult_IZR. reflexivity. Qed.
